@@ -555,6 +555,62 @@ def h4_objstm(timeout=300, part=None, **kw):
                          timeout, concretize=conc, part=part, int_lo=0, int_hi=max(lens.values()) + 1)
 
 
+# ---- numbers far beyond the document's size in entries that drive loops or allocations ("work bounded in proportion to the input size")
+HUGE = [10 ** 9, 2 ** 31, 10 ** 20, -1, -(2 ** 31) - 1]
+HUGE_SITES = [("seed2", (8, "W", 1)), ("seed2", (8, "W", 3)), ("seed2", (8, "W", 4)), ("seed2", (8, "DW",)), ("seed2", (10, "FirstChar")), ("seed2", (10, "LastChar")), ("seed2", (12, "FirstChar")),
+              ("seed2", (2, "Count")), ("seed2", (17, "Width")), ("seed2", (17, "Height")), ("seed2", (20, "Count")), ("seed2", (23, "Nums", 0)), ("seed2", (23, "Nums", 1, "St")),
+              ("seed1", (2, "Count")), ("seed1", (7, "Width")), ("seed1", (1, "PageLabels", "Nums", 0)),
+              ("xref", "Size"), ("xref", "Index0"), ("xref", "Index1"), ("xref", "W0"), ("xref", "W1"), ("xref", "W2"), ("xref", "Prev"), ("objstm", "N"), ("objstm", "First")]
+
+
+def huge_doc(where, site, val):
+    if where in ("seed1", "seed2"):
+        objs = SEEDS[int(where[-1])]()
+        o = objs[site[0]]
+        d = o.d if isinstance(o, Stream) else o
+        for k in site[1:-1]:
+            d = d[k]
+        d[site[-1]] = val
+        return pdfgen.build(objs)
+    if where == "objstm":
+        return _packed_doc(objstm_fault=_dict_fault(site, val))
+
+    def xf(d, data):
+        d = dict(d)
+        if site.startswith("Index"):
+            ix = list(d["Index"])
+            ix[int(site[-1])] = val
+            d["Index"] = ix
+        elif site.startswith("W"):
+            w = list(d["W"])
+            w[int(site[-1])] = val
+            d["W"] = w
+        else:
+            d[site] = val
+        return d, data
+    return _packed_doc(xref_fault=xf)
+
+
+def h4_huge(timeout=300, part=None, **kw):
+    """counts, ranges, sizes and offsets replaced by numbers far beyond the document's size (10^9, 2^31, 10^20, negative): extract_text returns or raises a library error within
+    5 s and 2 GiB - the loops and buffers these numbers drive are bounded by the data actually present"""
+    def fn(ex):
+        i = ex.choice(len(HUGE_SITES), "site")
+        j = ex.choice(len(HUGE), "value")
+        where, site = HUGE_SITES[i]
+        try:
+            data = huge_doc(where, site, HUGE[j])
+        except Exception:
+            raise symx.Abort()
+        r = run_extract(data)
+        ex.require(r is None, "%s entry %s set to %d: %s" % (where, site, HUGE[j], r), i=i, j=j)
+
+    def conc(m, info):
+        return {"what": "huge", "i": info["i"], "j": info["j"]}
+    from pdfminer import high_level
+    return core.run_symx("H4_faults", fn, [high_level.extract_text], {"sites": [str(x) for x in HUGE_SITES], "values": HUGE, "work bound": "5 s alarm, 2 GiB address-space allowance"}, timeout, concretize=conc, part=part)
+
+
 # ---- faults in the encryption dictionary (the document opens with the empty user password, so the handler is fully initialised)
 ENC_ID = b"0123456789abcdef"
 
@@ -901,6 +957,10 @@ def replay(harness, inp):
         data, desc = fontfile_fault(inp["kind"], inp["mode"], inp["pos"], inp["v"])
         r = run_extract(fontfile_doc(inp["kind"], data))
         return None if r is None else "%s (%s): %s" % (desc, data.hex(), r)
+    if what == "huge":
+        where, site = HUGE_SITES[inp["i"]]
+        r = run_extract(huge_doc(where, site, HUGE[inp["j"]]))
+        return None if r is None else "%s document with entry %s set to %d: %s" % (where, site, HUGE[inp["j"]], r)
     if what == "cmap":
         toks = list(CMAP_TOKENS)
         toks[inp["i"]] = CMAP_BAD[inp["j"]]
@@ -952,6 +1012,7 @@ def jobs(tier):
     for k in range(2):
         J.append(Job("H4_objstm:%d" % k, "h4_objstm", {"part": [k, 2, 5]}, 300, "H4_faults"))
     J.append(Job("H4_encrypt", "h4_encrypt", {}, 300, "H4_faults"))
+    J.append(Job("H4_huge", "h4_huge", {}, 300, "H4_faults"))
     J.append(Job("H5_cmap", "h5_cmap", {}, 300, "H5_content"))
     for k in range(2):
         J.append(Job("H5_fontfile:%d" % k, "h5_fontfile", {"part": [k, 2, 4]}, 300, "H5_content"))
